@@ -446,6 +446,7 @@ class Translator:
     def tr_entries(self, d, ctx):
         entries, extra = [], None
         seen = set()
+        dict_valued = set()
         for k, v in zip(d.keys, d.values):
             if isinstance(k, ast.Name) and k.id == 'Extra':
                 if extra is not None:
@@ -464,8 +465,11 @@ class Translator:
                 if kw.arg != 'default':
                     raise Unsupported('keyword %s on %s(%r)' % (kw.arg, k.func.id, key))
                 default = '(Some %s)' % self.tr_value(kw.value, ctx)
+            if isinstance(v, ast.Dict):
+                dict_valued.add(key)
             required = 'true' if k.func.id == 'Required' else 'false'
             entries.append('(%s, %s, %s, %s)' % (g_str(key), required, default, self.tr_schema(v, ctx)))
+        self.last_dict_valued = dict_valued
         return entries, extra
 
     def resolve_dict(self, e, ctx):
@@ -535,7 +539,11 @@ class Translator:
             return '(STuple %s)' % g_list([self.tr_schema(x, ctx) for x in e.elts])
         if isinstance(e, ast.Dict):
             entries, extra = self.tr_entries(e, ctx)
-            return '(SDict %s %s)' % (g_list(entries), '(Some %s)' % extra if extra else 'None')
+            out = '(SDict %s %s)' % (g_list(entries), '(Some %s)' % extra if extra else 'None')
+            if not hasattr(self, 'dict_valued'):
+                self.dict_valued = {}
+            self.dict_valued[out] = set(self.last_dict_valued)
+            return out
         if isinstance(e, ast.Lambda):
             a = e.args
             if (len(a.args) == 1 and not a.vararg and not a.kwarg and not a.defaults and isinstance(e.body, ast.Tuple)
@@ -603,12 +611,23 @@ class Translator:
             if len(e.args) != 1 or e.keywords:
                 raise Unsupported('extend() with options')
             base = self.tr_schema(f.value, ctx)
+            base_dicts = set(getattr(self, 'dict_valued', {}).get(base, ()))
             d, dctx = self.resolve_dict(e.args[0], ctx)
             dctx = dctx.child(locals=ctx.locals) if dctx is not ctx else ctx
             entries, extra = self.tr_entries(d, dctx)
+            # voluptuous merges recursively when BOTH the old and the new value of a key are dictionaries; the model's
+            # sextend replaces -- refuse the case instead of guessing
+            if base_dicts & self.last_dict_valued:
+                raise Unsupported('extend() overrides dictionary-valued keys %s with dictionaries' % sorted(base_dicts & self.last_dict_valued))
+            if not hasattr(self, 'dict_valued'):
+                self.dict_valued = {}
+            merged = base_dicts | self.last_dict_valued
             if extra:
-                return '(sextend_extra %s %s (Some %s))' % (base, g_list(entries), extra)
-            return '(sextend %s %s)' % (base, g_list(entries))
+                out = '(sextend_extra %s %s (Some %s))' % (base, g_list(entries), extra)
+            else:
+                out = '(sextend %s %s)' % (base, g_list(entries))
+            self.dict_valued[out] = merged
+            return out
         if not isinstance(f, ast.Name):
             raise Unsupported('call ' + ast.unparse(e))
         n = f.id
